@@ -117,8 +117,65 @@ fn encode(ty: &Type, rng: &mut Rng) -> (Value, ArgValue, String) {
     }
 }
 
+/// The parameters a template declares, found by walking its *serialised* form (every `ExpectValue(name, type)`
+/// node outside an applied `Set`): independent of the `params()` traversal that `parse_resolve_request` itself
+/// relies on, so a parameter that traversal loses is seen as "declared, supplied, but dropped".
+fn declared_by_walk(t: &tx3_tir::model::v1beta0::Tx) -> Vec<(String, Type)> {
+    let v = crate::canon::to_value(t);
+    let mut out: std::collections::BTreeMap<String, Type> = std::collections::BTreeMap::new();
+    let mut path = vec![];
+    crate::canon::walk(&v, &mut path, &mut |p, node| {
+        if p.iter().any(|x| x == "Set") {
+            return;
+        }
+        if let ciborium::Value::Map(m) = node {
+            if m.len() == 1 {
+                if let (ciborium::Value::Text(k), ciborium::Value::Array(a)) = (&m[0].0, &m[0].1) {
+                    if k == "ExpectValue" && a.len() == 2 {
+                        if let ciborium::Value::Text(name) = &a[0] {
+                            let ty = match &a[1] {
+                                ciborium::Value::Text(t) => match t.as_str() {
+                                    "Int" => Some(Type::Int),
+                                    "Bool" => Some(Type::Bool),
+                                    "Bytes" => Some(Type::Bytes),
+                                    "Address" => Some(Type::Address),
+                                    "UtxoRef" => Some(Type::UtxoRef),
+                                    "Undefined" => Some(Type::Undefined),
+                                    "Unit" => Some(Type::Unit),
+                                    "Utxo" => Some(Type::Utxo),
+                                    "AnyAsset" => Some(Type::AnyAsset),
+                                    "List" => Some(Type::List),
+                                    "Map" => Some(Type::Map),
+                                    _ => None,
+                                },
+                                ciborium::Value::Map(mm) if mm.len() == 1 => match (&mm[0].0, &mm[0].1) {
+                                    (ciborium::Value::Text(k), ciborium::Value::Text(n)) if k == "Custom" => Some(Type::Custom(n.clone())),
+                                    _ => None,
+                                },
+                                _ => None,
+                            };
+                            if let Some(ty) = ty {
+                                // one name declared with two types: keep the first (such IRs come from random trees only)
+                                out.entry(name.clone()).or_insert(ty);
+                            }
+                        }
+                    }
+                }
+            }
+        }
+    });
+    out.into_iter().collect()
+}
+
+/// strings whose multi-byte characters sit where a byte-offset slice would cut (after 0, 1, 2 ASCII bytes,
+/// after a `0x`, around `#`)
+const NON_ASCII: &[&str] = &["€", "1€", "0x€", "aé", "日本", "0xé1", "0X日", "é#1", "€#0", "#€", "0x1€", "𝄞", "a𝄞", "0€x", "ab€cd", "日本語日本語日本語日本語"];
+
 /// ill-formed values the statement excludes
 fn ill_formed(ty: &Type, rng: &mut Rng) -> (Value, String) {
+    if matches!(ty, Type::Int | Type::Bytes | Type::Address | Type::UtxoRef | Type::Bool) && rng.chance(1, 6) {
+        return (json!(*rng.pick(NON_ASCII)), "non-ascii-text".into());
+    }
     match ty {
         Type::Int => match rng.below(10) {
             7 => (json!(1.5), "float".into()),
@@ -177,7 +234,13 @@ fn random_json(rng: &mut Rng, depth: u32) -> Value {
         0 => Value::Null,
         1 => json!(rng.bool()),
         2 => json!(rng.range(-5, 1_000_000)),
-        3 => json!(["", "v1beta0", "hex", "base64", "00", "zz", "tir", "args"][rng.usize(8)]),
+        3 => {
+            if rng.chance(1, 3) {
+                json!(*rng.pick(NON_ASCII))
+            } else {
+                json!(["", "v1beta0", "hex", "base64", "00", "zz", "tir", "args"][rng.usize(8)])
+            }
+        }
         4 => json!(rng.next_u64() as f64 / 7.0),
         5 => Value::Array((0..rng.usize(3)).map(|_| random_json(rng, depth + 1)).collect()),
         _ => {
@@ -273,7 +336,7 @@ impl C16 {
             let name = g.prog.txs[0].name.clone();
             match front(&src, &name) {
                 Ok(t) => {
-                    let p = find_params(&t).into_iter().collect();
+                    let p = declared_by_walk(&t);
                     (tx3_tir::encoding::to_bytes(&t).0, p)
                 }
                 Err(_) => return,
@@ -281,7 +344,7 @@ impl C16 {
         } else {
             let mut gen = TirGen::new(3, false);
             let t = gen.tx(rng);
-            let p = crate::panics::catch(|| find_params(&t)).unwrap_or_default().into_iter().collect();
+            let p = declared_by_walk(&t);
             (tx3_tir::encoding::to_bytes(&t).0, p)
         };
         // arguments for the declared parameters, split between `args` and `env`
